@@ -18,18 +18,21 @@ type frame struct {
 }
 
 type act struct {
-	kind      byte // S T L D C N A K U V
-	k, v      int  // S/T: key,value; L: ntopics,tag; K/U: amount
-	addr      string
-	id        int
-	ck        string // call callcode delegatecall staticcall
-	value     int
-	vbig      *big.Int // a value that does not fit an int (256-bit boundary lattice); overrides value
-	two       bool
-	salt      int
-	auth      string // "-" or authority name
-	authNonce int
-	body      *frame
+	kind  byte // S T L D C N A K U V
+	k, v  int  // S/T: key,value; L: ntopics,tag; K/U: amount
+	addr  string
+	id    int
+	ck    string // call callcode delegatecall staticcall
+	value int
+	vbig  *big.Int // a value that does not fit an int (256-bit boundary lattice); overrides value
+	two   bool
+	// mayCollide: this CREATE2 may find its address taken (same creator and salt used before in the block, or the
+	// creator is not known statically); a collision takes all the gas the frame has
+	mayCollide bool
+	salt       int
+	auth       string // "-" or authority name
+	authNonce  int
+	body       *frame
 }
 
 func amt(small int, big_ *big.Int) *big.Int {
@@ -68,6 +71,7 @@ type block struct {
 	accounts []acct
 	txs      []*txn
 	salts    map[int]*frame
+	saltUse  map[string]bool // creator|salt pairs already used by a CREATE2 in this block
 }
 
 func (b *block) isHost(name string) bool {
@@ -175,7 +179,7 @@ func (f *frame) mayBurnAll() bool {
 		if a.kind == 'V' || a.kind == 'Q' {
 			return true // UNSTAKEALL / STAKENUM fail the frame when there is no such miner
 		}
-		if a.kind == 'N' && (a.two || createMayCollide || a.body.mayBurnAll()) {
+		if a.kind == 'N' && (a.mayCollide || createMayCollide || a.body.mayBurnAll()) {
 			return true
 		}
 	}
@@ -218,9 +222,9 @@ func (f *frame) need() uint64 {
 		case 'N':
 			g := a.body.need()
 			lo := g + g/32
-			if a.body.mayBurnAll() || a.two || createMayCollide { // a CREATE2 may collide, and a collision takes all gas
-				if 64*(n+k(cSimple)) > lo {
-					lo = 64 * (n + k(cSimple))
+			if a.body.mayBurnAll() || a.mayCollide || createMayCollide { // a collision takes all gas
+				if 64*(n+k(20000)) > lo {
+					lo = 64 * (n + k(20000))
 				}
 			} else if g+n > lo {
 				lo = g + n
@@ -291,7 +295,7 @@ func (g *gen) pickValue() (int, *big.Int) {
 	return valuePool[g.r.Intn(len(valuePool))], nil
 }
 
-var valuePool = []int{0, 0, 0, 1, 1, 2, 7, 49, 50, 51, 999, 1000, 1001, 5000}
+var valuePool = []int{0, 0, 0, 0, 0, 0, 1, 1, 1, 2, 2, 7, 49, 50, 51, 999, 1000, 1001, 5000}
 
 func (g *gen) block() *block {
 	r := g.r
@@ -337,7 +341,7 @@ func (g *gen) block() *block {
 		}
 	}
 	g.flags = setSchedule(cfg)
-	b := &block{cfg: cfg, salts: map[int]*frame{}}
+	b := &block{cfg: cfg, salts: map[int]*frame{}, saltUse: map[string]bool{}}
 	b.accounts = []acct{
 		{kind: "e", n: 10, balance: 1000000}, {kind: "e", n: 11, balance: r.Pick(0, 3, 50)},
 		{kind: "h", n: 20, balance: r.Pick(1000, 1000, 7)}, {kind: "h", n: 21, balance: r.Pick(0, 0, 1)}, {kind: "h", n: 22, balance: 50}, {kind: "h", n: 23, balance: r.Pick(0, 7)},
@@ -458,6 +462,12 @@ func (g *gen) tx(i int) *txn {
 			t.origin, t.hash = "b10", 1+i // distinct hashes (the loop panics on equal ones), one source
 			if !t.create && precN(t.target) != 0 && t.body.end == "oog" {
 				t.body.end = "stop" // a transaction cannot be given less gas than its intrinsic gas
+			}
+		}
+		if try > 40 { // give up on finding a tree that fits the gas cap: a trivial transaction
+			t.body = &frame{end: "stop"}
+			if t.create {
+				t.body = &frame{end: "retcode", endTag: 1}
 			}
 		}
 		if t.body.need() <= gasCap {
@@ -626,11 +636,17 @@ func (g *gen) frame(depth, maxDepth int, self string, static, inCreate bool) *fr
 			if r.Chance(1, 3) {
 				a.two = true
 				a.salt = 1 + r.Intn(3)
+				if g.blk.saltUse == nil {
+					g.blk.saltUse = map[string]bool{}
+				}
+				use := self + "|" + strconv.Itoa(a.salt)
+				a.mayCollide = self == "dyn" || g.blk.saltUse[use]
+				g.blk.saltUse[use] = true
 				if prev, ok := g.blk.salts[a.salt]; ok && prev != nil {
 					a.body = prev // same salt => same init code (same address for the same creator)
 				} else if ok {
 					// this salt's init code is being generated further up: use a plain CREATE here
-					a.two, a.salt = false, 0
+					a.two, a.salt, a.mayCollide = false, 0, false
 					a.body = g.frame(depth+1, maxDepth, "dyn", static, true)
 				} else {
 					g.blk.salts[a.salt] = nil
@@ -643,6 +659,17 @@ func (g *gen) frame(depth, maxDepth int, self string, static, inCreate bool) *fr
 		}
 		g.st.kinds[string(a.kind)+a.ck]++
 		f.acts = append(f.acts, a)
+		if a.kind == 'N' && a.two && r.Chance(1, 2) {
+			// the same CREATE2 again by the same creator: an address collision (after the creator's nonce bump) unless the
+			// first one failed and was reverted -- a branch random salts almost never reach
+			b := *a
+			b.id = g.id()
+			b.value, b.vbig = g.pickValue()
+			b.mayCollide = true
+			g.st.kinds["N:again"]++
+			f.acts = append(f.acts, &b)
+			break // last action of the frame: what is left after a collision is 1/64 of the frame's gas
+		}
 		if a.kind == 'D' {
 			break
 		}
